@@ -258,11 +258,14 @@ def main():
     ap.add_argument("--only-file", default=None)
     ap.add_argument("--ids", default=None)
     ap.add_argument("--all-checks", action="store_true")
+    ap.add_argument("--checks", default=None, help="comma separated check ids to run instead of the file->check map")
     ap.add_argument("--out", default=None)
     a = ap.parse_args()
     global ALL_CHECKS, RESULTS
     if a.all_checks:
         ALL_CHECKS = [f"C{i:02d}" for i in (20, 17, 12, 14, 7, 11, 1, 2, 3, 4, 5, 6, 8, 9, 10, 13, 15, 16, 18, 19)]
+    if a.checks:
+        ALL_CHECKS = a.checks.split(",")
     if a.out:
         RESULTS = a.out
     ms = all_mutants(a.max_per_file, a.only_file)
@@ -275,8 +278,10 @@ def main():
         print(len(ms), "mutants")
         return
     done = set()
-    if os.path.exists(RESULTS):
-        for l in open(RESULTS):
+    for rf in {RESULTS, os.path.join(V, "tools", "mutants_results.jsonl")}:
+        if not os.path.exists(rf) or a.ids:
+            continue
+        for l in open(rf):
             try:
                 done.add(json.loads(l)["id"])
             except Exception:
